@@ -20,7 +20,7 @@ import (
 	"pgregory.net/rapid"
 )
 
-func TestMain(m *testing.M) { vh.Main(m) }
+func TestMain(m *testing.M)   { vh.Main(m) }
 func TestReplay(t *testing.T) { vh.Replay(t) }
 func TestCorpus(t *testing.T) { vh.Corpus(t) }
 
@@ -231,14 +231,22 @@ func judge(in []byte, rr readResult) (kind, msg, outcome string) {
 			return "wrong-primary", fmt.Sprintf("primary URL %v, file says %q", b.PrimaryURL, p.HeaderURL), "accepted"
 		}
 	}
+	// A section name that the file's OWN version does not define ("primary" in a b1 file, "manifest"
+	// in a b2 file) may be read or stepped over like any unknown section: what is returned must
+	// come from the file, but leaving such a section unused is not a fault of the reader.
 	if p.HasPrimary {
 		if u, err := url.Parse(p.PrimaryURL); err == nil && (b.PrimaryURL == nil || b.PrimaryURL.String() != u.String()) {
-			return "wrong-primary", fmt.Sprintf("primary URL %v, primary section says %q", b.PrimaryURL, p.PrimaryURL), "accepted"
+			hu, herr := url.Parse(p.HeaderURL)
+			if !(p.Version == "b1" && herr == nil && b.PrimaryURL != nil && b.PrimaryURL.String() == hu.String()) {
+				return "wrong-primary", fmt.Sprintf("primary URL %v, primary section says %q", b.PrimaryURL, p.PrimaryURL), "accepted"
+			}
 		}
 	}
 	if p.HasManifest {
 		if u, err := url.Parse(p.ManifestURL); err == nil && (b.ManifestURL == nil || b.ManifestURL.String() != u.String()) {
-			return "wrong-manifest", fmt.Sprintf("manifest URL %v, manifest section says %q", b.ManifestURL, p.ManifestURL), "accepted"
+			if !(p.Version != "b1" && b.ManifestURL == nil) {
+				return "wrong-manifest", fmt.Sprintf("manifest URL %v, manifest section says %q", b.ManifestURL, p.ManifestURL), "accepted"
+			}
 		}
 	}
 	return "", "", "accepted-equal"
